@@ -1323,6 +1323,10 @@ impl Traceable for JsObject {
                     if let JsValue::Object(obj) = &binding.value {
                         visitor(obj.copy_ref());
                     }
+                    // The object an alias binding reads from and writes to
+                    if let Some(alias) = &binding.import_binding {
+                        visitor(alias.module_obj.copy_ref());
+                    }
                 }
                 // Trace outer environment if any
                 if let Some(outer) = &env_data.outer {
